@@ -111,8 +111,8 @@ class Batch:
         self.tag, self.cfg = tag, cfg or Cfg(key=KEY)
         self.udp, self.tcp, self.sport = [], [], 3000
 
-    def add(self, p, tcp=False, v6=False, sport=None, dport=3478):
-        s, d = gens.addr_pair(v6)
+    def add(self, p, tcp=False, v6=False, sport=None, dport=3478, src=None):
+        s, d = gens.addr_pair(v6, src)
         if sport is None:
             self.sport += 1
             sport = self.sport
@@ -196,6 +196,13 @@ def generate(tier, rng):
             b.add(p, v6=flags % 2 == 1, dport=rng.choice([3478, 65535, 0]))
     b.add(msg(magic=True))
     b.add(msg(magic=True, attrs=attr(3, b"\0\0\0\2")), dport=65535)
+    # source addresses whose textual / canonical form differs from their 16 octets
+    for src in ("::ffff:198.51.100.7", "::ffff:0.0.0.1", "::1.2.3.4", "::", "::1", "64:ff9b::c000:221", "fe80::1", "2002:c633:6407::1"):
+        b.add(msg(tid=rnd_tid(rng)), v6=True, src=src)
+        b.add(msg(tid=rnd_tid(rng), attrs=attr(3, b"\0\0\0\2")), v6=True, src=src, dport=65535)
+        b.add(msg(tid=rnd_tid(rng), magic=True, attrs=LONG), v6=True, src=src, tcp=True)
+    for src in ("0.0.0.0", "255.255.255.255", "127.0.0.1", "224.0.0.1"):
+        b.add(msg(tid=rnd_tid(rng)), src=src)
     yield from b.scripts()
     # B. long magic-cookie requests (identified): attribute lists of all shapes, both transports
     b = Batch("long-requests")
